@@ -225,6 +225,8 @@ class ScriptProc(CompartmentedModel):
         super().setUp(params)
         for (t, e, h) in self.spec['posts']:
             self.postEvent(t, e, self.hf[h], name=f'h{h}')
+        for (t0, dt, e, h) in self.spec.get('repeats', []):          # the repeating-event API, anonymously as a user would
+            self.postRepeatingEvent(t0, dt, e, self.hf[h])
 
     def mk(self, h):
         proc = self
@@ -421,6 +423,12 @@ class Extract:
             for hh in range(len(ids)):
                 txt = txt.replace('{h%d}' % hh, str(ids[hh]))
             self.hlines[key] = f"HANDLER {key} {kind} " + txt
+            for (t0, dt, e, h2) in sp.spec.get('repeats', []):
+                if h2 == h and key + '#repeat' not in self.hnames:
+                    # postRepeatingEvent(t0, dt, e, handler): the handler, then the same again dt later
+                    rk = key + '#repeat'
+                    self.hnames.append(rk); self.hkind[rk] = kind
+                    self.hlines[rk] = f"HANDLER {rk} {kind} " + (txt + ' ; ' if txt else '') + f"POSTE {fb(dt)} {self.hnames.index(rk)}"
         return ids
 
 
@@ -920,6 +928,8 @@ def run_case(case):
                     ids = [ex.hnames.index(p.hf[h].qn) for h in range(len(p.hf))]
                     for (t, e, h) in p.spec['posts']:
                         a, b = elem_pair(e); setup.append(f"S_POST {fb(t)} {a} {b} {ids[h]}")
+                    for (t0, dt, e, h) in p.spec.get('repeats', []):
+                        a, b = elem_pair(e); setup.append(f"S_POST {fb(t0)} {a} {b} {ex.hnames.index(p.hf[h].qn + '#repeat')}")
         for p in ex.leaves:
             if isinstance(p, AddDelete): setup.append(f"S_ALLNODES {ex.lidx[id(p.locus(AddDelete.NODES))]}")
         eq = []
